@@ -1,9 +1,260 @@
-//! stub
-use super::Ctx;
-use crate::engine::evidence::{Case, Report, Verdict};
-pub fn run(_ctx: &Ctx, _rep: &mut Report) {
-    crate::engine::monitor::machinery_fail("not implemented");
+//! C14 - bit-set card form and word form are mutually inverse over the 52 cards.
+//!
+//! Spaces: all 2^32 words through `BinaryCard::from_ckc` (complete); `CKCNumber::from_binary_card` on 0, all 64
+//! single bits, every value of population count <= 3 and >= 61, every value of the low 28 bits and of the high 28
+//! bits (thorough: of every 28-bit window at offsets 0, 12, 24, 36), rank-group masks, ALL, OVERFLOW; the 52
+//! named bit constants and `BinaryCard::DECK`; round trips both ways.
+//! Oracle: card i of the deck <-> bit 51 - i.
+use super::consts::{named_bits, rank_groups};
+use super::{confirm, sample_json, Ctx};
+use crate::engine::enumerate::par_parts;
+use crate::engine::evidence::{Acc, Case, Report, Verdict};
+use crate::engine::monitor::{self, guard};
+use crate::oracle::cards::{deck, show_word, word_to_card, Card};
+use ckc_rs::cards::binary_card::{BinaryCard, BC64};
+use ckc_rs::{CKCNumber, PokerCard};
+use std::time::Instant;
+
+#[inline]
+fn model_to_word(b: u64) -> u32 {
+    if b.count_ones() == 1 && b >> 52 == 0 {
+        Card::from_deck_index(51 - b.trailing_zeros() as usize).word()
+    } else {
+        0
+    }
 }
-pub fn judge(_case: &Case) -> Verdict {
-    Verdict::NotJudged("not implemented".into())
+#[inline]
+fn model_to_bit(w: u32) -> u64 {
+    word_to_card(w).map(|c| c.bit()).unwrap_or(0)
+}
+
+/// Case kinds: "from_ckc" [word]; "from_binary_card" [64-bit value]; "named-bit" [index]; "deck-bit" [index]; "group" [index].
+pub fn judge(case: &Case) -> Verdict {
+    let x = case.words.first().copied().unwrap_or(0);
+    match case.kind.as_str() {
+        "from_ckc" => {
+            let w = x as u32;
+            let exp = model_to_bit(w);
+            match guard(|| {
+                let b = BinaryCard::from_ckc(w);
+                (b, CKCNumber::from_binary_card(b))
+            }) {
+                Err(p) => Verdict::Violated { class: "panic:from_ckc".into(), expected: format!("{:#x}", exp), observed: format!("panic: {}", p) },
+                Ok((b, _)) if b != exp => Verdict::Violated { class: format!("from_ckc:{}", if exp == 0 { "non-card-gives-bits" } else { "wrong-bit" }), expected: format!("{:#x} for word {:#x} ({})", exp, w, show_word(w)), observed: format!("{:#x}", b) },
+                Ok((_, back)) if exp != 0 && back != w => Verdict::Violated { class: "round-trip:word-bit-word".into(), expected: show_word(w), observed: show_word(back) },
+                Ok(_) => Verdict::Holds,
+            }
+        }
+        "from_binary_card" => {
+            let exp = model_to_word(x);
+            match guard(|| {
+                let w = CKCNumber::from_binary_card(x);
+                (w, BinaryCard::from_ckc(w))
+            }) {
+                Err(p) => Verdict::Violated { class: "panic:from_binary_card".into(), expected: format!("{:#x}", exp), observed: format!("panic: {}", p) },
+                Ok((w, _)) if w != exp => Verdict::Violated {
+                    class: format!("from_binary_card:{}", if exp == 0 { "not-one-card-bit-gives-a-card" } else { "wrong-card" }),
+                    expected: format!("{} for bit-set {:#x} ({} bits)", show_word(exp), x, x.count_ones()),
+                    observed: show_word(w),
+                },
+                Ok((_, back)) if exp != 0 && back != x => Verdict::Violated { class: "round-trip:bit-word-bit".into(), expected: format!("{:#x}", x), observed: format!("{:#x}", back) },
+                Ok(_) => Verdict::Holds,
+            }
+        }
+        "named-bit" => {
+            let t = named_bits();
+            if x as usize >= t.len() {
+                return Verdict::NotJudged("no such constant".into());
+            }
+            let (name, b, r, s) = t[x as usize];
+            let exp = Card::new(r, s).bit();
+            if b == exp {
+                Verdict::Holds
+            } else {
+                Verdict::Violated { class: "named-bit:wrong-bit".into(), expected: format!("BinaryCard::{} = bit {}", name, exp.trailing_zeros()), observed: format!("{:#x}", b) }
+            }
+        }
+        "deck-bit" => {
+            if x >= 52 {
+                return Verdict::NotJudged("0..52".into());
+            }
+            let b = <BinaryCard as BC64>::DECK[x as usize];
+            let exp = 1u64 << (51 - x);
+            if b == exp {
+                Verdict::Holds
+            } else {
+                Verdict::Violated { class: "deck-bit:wrong-bit".into(), expected: format!("DECK[{}] = bit {}", x, 51 - x), observed: format!("{:#x}", b) }
+            }
+        }
+        "group" => {
+            let t = rank_groups();
+            if x as usize >= t.len() {
+                return Verdict::NotJudged("no such group".into());
+            }
+            let (name, b, r) = t[x as usize];
+            let exp = (0..4).fold(0u64, |m, s| m | Card::new(r, s).bit());
+            if b == exp {
+                Verdict::Holds
+            } else {
+                Verdict::Violated { class: "group:wrong-mask".into(), expected: format!("BinaryCard::{} = {:#x}", name, exp), observed: format!("{:#x}", b) }
+            }
+        }
+        _ => Verdict::NotJudged("unknown kind".into()),
+    }
+}
+
+fn check_b(acc: &mut Acc, b: u64) {
+    acc.cases += 1;
+    acc.calls += 1;
+    if model_to_word(b) != 0 {
+        acc.nontrivial += 1;
+    }
+    if !matches!(guard(|| CKCNumber::from_binary_card(b)), Ok(w) if w == model_to_word(b)) {
+        match confirm(judge, Case::new("from_binary_card", &[b])) {
+            Some(v) => acc.violate(v),
+            None => monitor::machinery_fail("C14 mismatch not reproduced"),
+        }
+    }
+}
+
+pub fn run(ctx: &Ctx, rep: &mut Report) {
+    // word -> bit, all 2^32 words
+    {
+        let t0 = Instant::now();
+        let kind = monitor::kind_id("from_ckc");
+        let accs = par_parts(256, |p| {
+            let mut acc = Acc::new(1);
+            let lo = (p as u64) << 24;
+            monitor::beat(kind, &[lo]);
+            let mut nbad = 0u64;
+            let mut cards = 0u64;
+            let r = guard(|| {
+                for x in lo..lo + (1 << 24) {
+                    let w = x as u32;
+                    let e = model_to_bit(w);
+                    cards += (e != 0) as u64;
+                    if BinaryCard::from_ckc(w) != e {
+                        nbad += 1;
+                    }
+                }
+            });
+            acc.cases += 1 << 24;
+            acc.calls += 1 << 24;
+            acc.nontrivial += cards;
+            if r.is_err() || nbad > 0 {
+                let mut stored = 0;
+                for x in lo..lo + (1 << 24) {
+                    if stored < 8 {
+                        if let Some(v) = confirm(judge, Case::new("from_ckc", &[x])) {
+                            acc.violate(v);
+                            stored += 1;
+                        }
+                    }
+                }
+                if stored == 0 {
+                    monitor::machinery_fail("C14 from_ckc mismatch not reproduced");
+                }
+                acc.viol_count = acc.viol_count.max(nbad);
+            }
+            acc
+        });
+        let acc = Acc::merged(accs);
+        rep.guard("word sweep met exactly 52 card words", acc.nontrivial == 52, format!("{}", acc.nontrivial));
+        rep.add_space("2^32 words through BinaryCard::from_ckc", &acc, t0, "non-cards => empty set, card i => bit 51 - i");
+    }
+    // constants and round trips
+    {
+        let t0 = Instant::now();
+        let mut acc = Acc::new(1);
+        for i in 0..52u64 {
+            for k in ["named-bit", "deck-bit"] {
+                acc.cases += 1;
+                acc.calls += 1;
+                acc.nontrivial += 1;
+                if let Some(v) = confirm(judge, Case::new(k, &[i])) {
+                    acc.violate(v);
+                }
+            }
+            // round trips through the judge (both directions)
+            let c = deck()[i as usize];
+            for (k, x) in [("from_ckc", c.word() as u64), ("from_binary_card", c.bit())] {
+                acc.cases += 1;
+                acc.calls += 2;
+                acc.nontrivial += 1;
+                if let Some(v) = confirm(judge, Case::new(k, &[x])) {
+                    acc.violate(v);
+                }
+            }
+        }
+        for i in 0..13u64 {
+            acc.cases += 1;
+            acc.calls += 1;
+            if let Some(v) = confirm(judge, Case::new("group", &[i])) {
+                acc.violate(v);
+            }
+        }
+        let all = <BinaryCard as BC64>::ALL;
+        let ovf = <BinaryCard as BC64>::OVERFLOW;
+        rep.guard("ALL is the 52 card bits and OVERFLOW the 12 bits above", all == (1u64 << 52) - 1 && ovf == !((1u64 << 52) - 1), format!("{:#x} {:#x}", all, ovf));
+        rep.add_space("52 named bit constants, DECK, rank groups, round trips both ways", &acc, t0, "");
+        rep.sample(sample_json("from_ckc / from_binary_card", "A♠ / bit 51", &format!("{:#x} / {}", BinaryCard::from_ckc(deck()[0].word()), show_word(CKCNumber::from_binary_card(1 << 51)))));
+    }
+    // bit -> word: structured families
+    {
+        let t0 = Instant::now();
+        let mut acc = Acc::new(1);
+        check_b(&mut acc, 0);
+        for i in 0..64 {
+            check_b(&mut acc, 1u64 << i);
+            check_b(&mut acc, !(1u64 << i));
+            for j in 0..i {
+                check_b(&mut acc, 1u64 << i | 1u64 << j);
+                check_b(&mut acc, !(1u64 << i | 1u64 << j));
+                for k in 0..j {
+                    check_b(&mut acc, 1u64 << i | 1u64 << j | 1u64 << k);
+                    check_b(&mut acc, !(1u64 << i | 1u64 << j | 1u64 << k));
+                }
+            }
+        }
+        for (_, g, _) in rank_groups() {
+            check_b(&mut acc, g);
+        }
+        for b in [<BinaryCard as BC64>::ALL, <BinaryCard as BC64>::OVERFLOW, u64::MAX, (1u64 << 52), (1u64 << 52) | 1] {
+            check_b(&mut acc, b);
+        }
+        rep.add_space("from_binary_card: 0, all values of population count <= 3 and >= 61, group masks, ALL, OVERFLOW", &acc, t0, "");
+    }
+    {
+        let offsets: Vec<u32> = if ctx.tier.thorough() { vec![0, 12, 24, 36] } else { vec![0, 36] };
+        for off in offsets {
+            let t0 = Instant::now();
+            let kind = monitor::kind_id("from_binary_card");
+            let accs = par_parts(256, |p| {
+                let mut acc = Acc::new(1);
+                let lo = (p as u64) << 20;
+                monitor::beat(kind, &[lo << off]);
+                for x in lo..lo + (1 << 20) {
+                    let b = x << off;
+                    acc.cases += 1;
+                    acc.calls += 1;
+                    let e = model_to_word(b);
+                    if e != 0 {
+                        acc.nontrivial += 1;
+                    }
+                    if !matches!(guard(|| CKCNumber::from_binary_card(b)), Ok(w) if w == e) {
+                        match confirm(judge, Case::new("from_binary_card", &[b])) {
+                            Some(v) => acc.violate(v),
+                            None => monitor::machinery_fail("C14 window mismatch not reproduced"),
+                        }
+                    }
+                }
+                acc
+            });
+            let acc = Acc::merged(accs);
+            rep.add_space(&format!("from_binary_card: every value of the 28-bit window at bit offset {}", off), &acc, t0, "all 2^28 bit patterns inside the window, zero outside");
+        }
+    }
+    let _ = PokerCard::is_blank(&0u32);
+    rep.rule = "distinct words / distinct 64-bit values; non-trivial = inputs that denote a real card (must map to exactly that card's other form)".into();
+    rep.bound = "word -> bit complete (2^32). bit -> word: all values with <= 3 or >= 61 bits set, all values confined to 28-bit windows, named masks; the remaining 64-bit values are outside (an exact 52-arm match cannot tell them from the explored multi-bit values, but that is an argument, not an enumeration)".into();
 }
